@@ -1,5 +1,6 @@
 """Sidecar contracts for pjrpc/server/dispatcher.py."""
 from pyvc.api import contract
+from spec.prims import bound_method
 from spec.prims import (at_entry, class_is, ev_value, implies, is_absent, member, old, same, seq_concat, seq_same, tlen,
                         uf, ufv)
 from spec.server import (config_ok, handler_event_ok, handlers_for, method_failed, method_returned, ran_once,
@@ -89,6 +90,12 @@ class HandleRequest:
 
     def requires_config(self, request, context):
         return config_ok(self) and request_ok(request)
+
+    def callsite_requires_through_the_chain(self, request, context):
+        # C12: requests enter through the middleware chain (self._request_handler).  The library itself may call the
+        # innermost handler directly only where it IS the whole chain (no middleware configured); with middlewares,
+        # the innermost handler is reached from user middlewares only (outside the verified code)
+        return same(self._request_handler, bound_method(self, '_handle_request'))
 
     # ---- loop over it.chain(generic handlers, handlers for the raised error's code)  (C12)
     def invariant0_chain(self, request, context, error, xs, k):
